@@ -5,6 +5,7 @@ import (
 
 	"github.com/smarthome-go/homescript/v3/homescript/analyzer"
 	"github.com/smarthome-go/homescript/v3/homescript/analyzer/ast"
+	"github.com/smarthome-go/homescript/v3/homescript/diagnostic"
 	"github.com/smarthome-go/homescript/v3/homescript/errors"
 )
 
@@ -39,9 +40,10 @@ func vrWrap(pos int, stmts string) string {
 }
 
 type vrCase struct {
-	code   string
-	faulty bool
-	what   string
+	code    string
+	faulty  bool
+	what    string
+	culprit string // when set: the lexeme an error diagnostic has to point at (C08)
 }
 
 func vrMain(body string) string { return "fn main() {\n" + body + "}\n" }
@@ -58,25 +60,25 @@ func vrBuild(t int) vrCase {
 		if t1 == 4 && t2 == 4 { // a null value may not be passed to println: not this rule's subject
 			t1, t2 = 0, 0
 		}
-		return vrCase{vrMain(vrWrap(pos, "  let a: "+vrTypes[t1]+" = "+vrLits[t2]+";\n  println(a);")), t1 != t2, "let-annotation " + vrTypes[t1] + " = " + vrTypes[t2] + " @" + vrPositions[pos]}
+		return vrCase{vrMain(vrWrap(pos, "  let a: "+vrTypes[t1]+" = "+vrLits[t2]+";\n  println(a);")), t1 != t2, "let-annotation " + vrTypes[t1] + " = " + vrTypes[t2] + " @" + vrPositions[pos], ""}
 	case 1: // assignment
 		t1, t2, pos := nd("t1", 0, 5), nd("t2", 0, 5), nd("pos", 0, len(vrPositions)-1)
 		if t1 == 4 && t2 == 4 {
 			t1, t2 = 0, 0
 		}
-		return vrCase{vrMain("  let a = " + vrLits[t1] + ";\n" + vrWrap(pos, "  a = "+vrLits[t2]+";") + "  println(a);\n"), t1 != t2, "assign " + vrTypes[t1] + " = " + vrTypes[t2] + " @" + vrPositions[pos]}
+		return vrCase{vrMain("  let a = " + vrLits[t1] + ";\n" + vrWrap(pos, "  a = "+vrLits[t2]+";") + "  println(a);\n"), t1 != t2, "assign " + vrTypes[t1] + " = " + vrTypes[t2] + " @" + vrPositions[pos], ""}
 	case 2: // condition of if / while
 		t1, kind := nd("t1", 0, 5), nd("kind", 0, 1)
 		stmt := "  if " + vrLits[t1] + " { println(1); }"
 		if kind == 1 {
 			stmt = "  while " + vrLits[t1] + " { break; }"
 		}
-		return vrCase{vrMain(stmt + "\n"), t1 != 2, "condition " + vrTypes[t1]}
+		return vrCase{vrMain(stmt + "\n"), t1 != 2, "condition " + vrTypes[t1], ""}
 	case 3: // operands of + and <
 		t1, t2, op := nd("t1", 0, 5), nd("t2", 0, 5), nd("op", 0, 1)
 		ops := []string{"+", "<"}
 		okT := t1 == t2 && (t1 == 0 || t1 == 1 || (t1 == 3 && op == 0))
-		return vrCase{vrMain("  println(" + vrLits[t1] + " " + ops[op] + " " + vrLits[t2] + ");\n"), !okT, "operands " + vrTypes[t1] + ops[op] + vrTypes[t2]}
+		return vrCase{vrMain("  println(" + vrLits[t1] + " " + ops[op] + " " + vrLits[t2] + ");\n"), !okT, "operands " + vrTypes[t1] + ops[op] + vrTypes[t2], ""}
 	case 4: // call arity
 		np, na, pos := nd("np", 0, 3), nd("na", 0, 3), nd("pos", 0, len(vrPositions)-1)
 		params, args := "", ""
@@ -92,34 +94,34 @@ func vrBuild(t int) vrCase {
 			}
 			args += "1"
 		}
-		return vrCase{"fn f(" + params + ") -> int { return 1; }\n" + vrMain(vrWrap(pos, "  println(f("+args+"));")), np != na, fmt.Sprintf("arity %d/%d @%s", np, na, vrPositions[pos])}
+		return vrCase{"fn f(" + params + ") -> int { return 1; }\n" + vrMain(vrWrap(pos, "  println(f("+args+"));")), np != na, fmt.Sprintf("arity %d/%d @%s", np, na, vrPositions[pos]), ""}
 	case 5: // argument type
 		t1, t2 := nd("t1", 0, 5), nd("t2", 0, 5)
 		if t1 == 4 && t2 == 4 {
 			t1, t2 = 0, 0
 		}
-		return vrCase{"fn f(p: " + vrTypes[t1] + ") -> int { return 1; }\n" + vrMain("  println(f("+vrLits[t2]+"));\n"), t1 != t2, "argument " + vrTypes[t1] + " <- " + vrTypes[t2]}
+		return vrCase{"fn f(p: " + vrTypes[t1] + ") -> int { return 1; }\n" + vrMain("  println(f("+vrLits[t2]+"));\n"), t1 != t2, "argument " + vrTypes[t1] + " <- " + vrTypes[t2], ""}
 	case 6: // return type, at several positions inside f
 		t1, t2, pos := nd("t1", 0, 5), nd("t2", 0, 5), nd("pos", 0, len(vrPositions)-1)
 		if t1 == 4 {
 			t1 = 0
 		}
 		body := vrWrap(pos, "  if 1 < 2 { return "+vrLits[t2]+"; }") + "  return " + vrLits[t1] + ";\n"
-		return vrCase{"fn f() -> " + vrTypes[t1] + " {\n" + body + "}\n" + vrMain("  println(f());\n"), t1 != t2, "return " + vrTypes[t1] + " <- " + vrTypes[t2] + " @" + vrPositions[pos]}
+		return vrCase{"fn f() -> " + vrTypes[t1] + " {\n" + body + "}\n" + vrMain("  println(f());\n"), t1 != t2, "return " + vrTypes[t1] + " <- " + vrTypes[t2] + " @" + vrPositions[pos], ""}
 	case 7: // branches of an if expression
 		t1, t2 := nd("t1", 0, 5), nd("t2", 0, 5)
 		if t1 == 4 && t2 == 4 {
 			t1, t2 = 0, 0
 		}
-		return vrCase{vrMain("  let v = if 1 < 2 { " + vrLits[t1] + " } else { " + vrLits[t2] + " };\n  println(v);\n"), t1 != t2, "branches " + vrTypes[t1] + "/" + vrTypes[t2]}
+		return vrCase{vrMain("  let v = if 1 < 2 { " + vrLits[t1] + " } else { " + vrLits[t2] + " };\n  println(v);\n"), t1 != t2, "branches " + vrTypes[t1] + "/" + vrTypes[t2], ""}
 	case 8: // iterator type
 		t1 := nd("t1", 0, len(vrTypes)-1)
 		iterable := t1 == 3 || t1 == 5 || t1 == 8
-		return vrCase{vrMain("  for x in " + vrLits[t1] + " { println(x); }\n"), !iterable, "iterator " + vrTypes[t1]}
+		return vrCase{vrMain("  for x in " + vrLits[t1] + " { println(x); }\n"), !iterable, "iterator " + vrTypes[t1], ""}
 	case 9: // unknown identifier / type / member
 		kind, pos := nd("kind", 0, 3), nd("pos", 0, len(vrPositions)-1)
 		stmts := []string{"  println(1);", "  println(nothere);", "  let a: Nothere = 1;\n  println(a);", "  println((1).nothere);"}
-		return vrCase{vrMain(vrWrap(pos, stmts[kind])), kind != 0, fmt.Sprintf("unknown kind%d @%s", kind, vrPositions[pos])}
+		return vrCase{code: vrMain(vrWrap(pos, stmts[kind])), faulty: kind != 0, what: fmt.Sprintf("unknown kind%d @%s", kind, vrPositions[pos]), culprit: []string{"", "nothere", "Nothere", "nothere"}[kind]}
 	case 10: // break / continue outside a loop
 		kw, where := nd("kw", 0, 1), nd("where", 0, 5)
 		k := []string{"break", "continue"}[kw]
@@ -144,7 +146,11 @@ func vrBuild(t int) vrCase {
 		case 5:
 			body = "  { " + k + "; }\n"
 		}
-		return vrCase{vrMain(body), fault, k + fmt.Sprintf(" where%d", where)}
+		cul := ""
+		if fault {
+			cul = k
+		}
+		return vrCase{code: vrMain(body), faulty: fault, what: k + fmt.Sprintf(" where%d", where), culprit: cul}
 	case 11: // duplicate definitions
 		kind := nd("kind", 0, 4)
 		progs := []string{
@@ -154,7 +160,7 @@ func vrBuild(t int) vrCase {
 			"type T = int;\ntype T = str;\n" + vrMain("  let x: T = 1;\n  println(x);\n"),
 			"fn a(p: int, p: int) {}\n" + vrMain("  a(1, 2);\n"),
 		}
-		return vrCase{progs[kind], kind != 0, fmt.Sprintf("duplicate kind%d", kind)}
+		return vrCase{progs[kind], kind != 0, fmt.Sprintf("duplicate kind%d", kind), ""}
 	case 12: // implicit any
 		kind := nd("kind", 0, 2)
 		progs := []string{
@@ -162,7 +168,7 @@ func vrBuild(t int) vrCase {
 			vrMain("  let x = \"{}\".parse_json();\n  println(x);\n"),
 			vrMain("  let x: int = \"1\".parse_json();\n  println(x);\n"),
 		}
-		return vrCase{progs[kind], kind == 1, fmt.Sprintf("implicit-any kind%d", kind)}
+		return vrCase{progs[kind], kind == 1, fmt.Sprintf("implicit-any kind%d", kind), ""}
 	case 13: // main
 		kind := nd("kind", 0, 3)
 		progs := []string{
@@ -171,17 +177,17 @@ func vrBuild(t int) vrCase {
 			"fn main(a: int) { println(a); }\n",
 			"fn main() -> int { return 1; }\n",
 		}
-		return vrCase{progs[kind], kind != 0, fmt.Sprintf("main kind%d", kind)}
+		return vrCase{progs[kind], kind != 0, fmt.Sprintf("main kind%d", kind), ""}
 	case 14: // the enclosing function's return type still applies after a closure literal
 		t2 := nd("t2", 0, 3)
-		return vrCase{"fn f() -> int {\n  let g = fn() -> str { \"s\" };\n  println(g());\n  return " + vrLits[t2] + ";\n}\n" + vrMain("  println(f());\n"), t2 != 0, "return-after-closure " + vrTypes[t2]}
+		return vrCase{"fn f() -> int {\n  let g = fn() -> str { \"s\" };\n  println(g());\n  return " + vrLits[t2] + ";\n}\n" + vrMain("  println(f());\n"), t2 != 0, "return-after-closure " + vrTypes[t2], ""}
 	case 15: // non-constant global
 		kind := nd("kind", 0, 1)
 		progs := []string{
 			"let g = 1 + 2;\n" + vrMain("  println(g);\n"),
 			"fn f() -> int { return 1; }\nlet g = f();\n" + vrMain("  println(g);\n"),
 		}
-		return vrCase{progs[kind], kind == 1, fmt.Sprintf("global-init kind%d", kind)}
+		return vrCase{progs[kind], kind == 1, fmt.Sprintf("global-init kind%d", kind), ""}
 	case 16: // list element types / index type / member call argument
 		kind := nd("kind", 0, 4)
 		progs := []string{
@@ -191,7 +197,7 @@ func vrBuild(t int) vrCase {
 			vrMain("  let l = [1, 2];\n  l.push(\"s\");\n  println(l);\n"),
 			vrMain("  let o = new { a: 1 };\n  o.a = \"s\";\n  println(o.a);\n"),
 		}
-		return vrCase{progs[kind], kind != 0, fmt.Sprintf("container kind%d", kind)}
+		return vrCase{progs[kind], kind != 0, fmt.Sprintf("container kind%d", kind), ""}
 	}
 	if t == 17 { // function type annotations
 		kind := nd("kind", 0, 3)
@@ -201,7 +207,7 @@ func vrBuild(t int) vrCase {
 			vrMain("  let f: fn(a: int) -> str = fn(a: int) -> int { a };\n  println(f(1));\n"),
 			vrMain("  let f: fn(a: str) -> int = fn(a: int) -> int { a };\n  println(f(\"s\"));\n"),
 		}
-		return vrCase{progs[kind], kind != 0, fmt.Sprintf("fn-type-annotation kind%d", kind)}
+		return vrCase{progs[kind], kind != 0, fmt.Sprintf("fn-type-annotation kind%d", kind), ""}
 	}
 	if t == 18 { // `return;` without a value in a function or closure that declares a return type
 		t1, pos, where := nd("t1", 0, 4), nd("pos", 0, len(vrPositions)-1), nd("where", 0, 1)
@@ -212,11 +218,11 @@ func vrBuild(t int) vrCase {
 		}
 		body := vrWrap(pos, "  if 1 < 2 { return; }") + tail
 		if where == 0 {
-			return vrCase{"fn f()" + decl + " {\n" + body + "}\n" + vrMain("  f();\n"), t1 != 4, "bare-return in fn ->" + vrTypes[t1] + " @" + vrPositions[pos]}
+			return vrCase{"fn f()" + decl + " {\n" + body + "}\n" + vrMain("  f();\n"), t1 != 4, "bare-return in fn ->" + vrTypes[t1] + " @" + vrPositions[pos], ""}
 		}
-		return vrCase{vrMain("  let g = fn()" + decl + " {\n" + body + "  };\n  g();\n"), t1 != 4, "bare-return in closure ->" + vrTypes[t1] + " @" + vrPositions[pos]}
+		return vrCase{vrMain("  let g = fn()" + decl + " {\n" + body + "  };\n  g();\n"), t1 != 4, "bare-return in closure ->" + vrTypes[t1] + " @" + vrPositions[pos], ""}
 	}
-	return vrCase{vrMain("  println(1);\n"), false, "trivial"}
+	return vrCase{vrMain("  println(1);\n"), false, "trivial", ""}
 }
 
 const vrTemplates = 19
@@ -233,6 +239,16 @@ func VerifHarness_Rules() {
 		return
 	}
 	errors.VerifReached("analyzed")
+	vrSpansHook(an, c.code)
+	if c.faulty && c.culprit != "" && errors.VerifParam("spans", 0) == 1 {
+		hit := false
+		for _, d := range an.diags {
+			if d.Level == diagnostic.DiagnosticLevelError && verifSpanValid(d.Span, c.code) && verifSpanOverlaps(d.Span, c.code, c.culprit) {
+				hit = true
+			}
+		}
+		errors.VerifAssert("diagnostic-points-at-the-culprit", hit)
+	}
 	if c.faulty {
 		errors.VerifAssert("ill-typed-program-rejected", an.hasError)
 	} else {
@@ -288,6 +304,7 @@ func VerifHarness_ExprTypes() {
 		return
 	}
 	errors.VerifReached("analyzed")
+	vrSpansHook(an, code)
 	if t1 != t2 {
 		errors.VerifAssert("mixed-operand-types-rejected", an.hasError)
 		return
@@ -446,6 +463,7 @@ func VerifHarness_Diverge() {
 		return
 	}
 	errors.VerifReached("analyzed")
+	vrSpansHook(an, code)
 	if t1 != t2 {
 		errors.VerifAssert("ill-typed-program-rejected", an.hasError)
 		return
@@ -498,6 +516,7 @@ func VerifHarness_AssignRules() {
 		return
 	}
 	errors.VerifReached("analyzed")
+	vrSpansHook(an, code)
 	if t1 != t2 {
 		errors.VerifAssert("mixed-operand-types-rejected", an.hasError)
 		return
@@ -526,4 +545,11 @@ func vrAnalyzerPanicked(msg string) {
 		errors.VerifAssert("analysis-never-panics", false)
 	}
 	errors.VerifReached("analyzer-panicked")
+}
+
+// vrSpansHook: under C08 (param spans=1) the positions of all diagnostics of the rule programs are checked.
+func vrSpansHook(an verifAnalysis, code string) {
+	if errors.VerifParam("spans", 0) == 1 {
+		verifCheckReportedSpans(an, code)
+	}
 }
